@@ -545,8 +545,18 @@ impl Builder {
         let mut owners: Vec<ConcatSource> = vec![];
         let mut handles: Vec<BoxSource> = vec![];
         let mut concat = ConcatSource::default();
-        for c in children {
+        for (pos, c) in children.iter().enumerate() {
           match c {
+            // a nested composite at an odd position is handed over behind a
+            // `BoxSource` (`concat.add(inner.boxed())`), with a second handle
+            // to the box alive in the held mode
+            TreeSpec::Concat { children, how } if pos % 2 == 1 => {
+              let b = self.build_concat(children, how).boxed();
+              if held {
+                handles.push(b.clone());
+              }
+              concat.add(b);
+            }
             TreeSpec::Concat { children, how } => {
               let inner = self.build_concat(children, how);
               if held {
